@@ -386,7 +386,15 @@ static Plan gen_plan(const std::string& prop, uint64_t seed, uint64_t run, const
   if (prop == "C12") return gen_c12(seed, run, cfg);
   return gen_c14(seed, run, cfg);
 }
+static uint64_t g_budget_base = 0; static bool g_budget_fixed = false;
 static bool run_case(const Plan& pl, Stats& st, Violation& v, bool enumerate) {
+  // the step budget grows with the size of the input (long paths are part of the workload); SIM_BUDGET fixes it
+  if (!g_budget_base) g_budget_base = g_budget;
+  if (!g_budget_fixed) {
+    uint64_t npts = 0;
+    for (const Op& o : pl.ops) for (int k = 0; k < 3; ++k) { if (o.hasP[k]) for (const PPath& q : o.P[k]) npts += q.size(); if (o.hasD[k]) for (const auto& q : o.D[k]) npts += q.size(); }
+    g_budget = g_budget_base + 2000000ull * npts;
+  }
   if (pl.prop == "C10") return case_c10(pl, st, v, enumerate);
   if (pl.prop == "C12") return case_c12(pl, st, v);
   return case_c14(pl, st, v);
@@ -416,7 +424,7 @@ int main(int argc, char** argv) {
   g_static_monitor = getenv("SIM_STATIC_MONITOR") != nullptr;
   if (getenv("SIM_FAULT_CAP")) g_fault_cap = atoi(getenv("SIM_FAULT_CAP"));
   if (getenv("SIM_MAX_PHASE")) g_max_phase = atoi(getenv("SIM_MAX_PHASE"));
-  if (getenv("SIM_BUDGET")) g_budget = strtoull(getenv("SIM_BUDGET"), nullptr, 10);
+  if (getenv("SIM_BUDGET")) { g_budget = strtoull(getenv("SIM_BUDGET"), nullptr, 10); g_budget_fixed = true; }
   if (getenv("SIM_SCHED_LOG")) g_sched_log = fopen(getenv("SIM_SCHED_LOG"), "w");
   if (cmd == "gen" && argc >= 6) {
     Plan p = gen_plan(argv[2], strtoull(argv[3], nullptr, 10), strtoull(argv[4], nullptr, 10), argv[5]);
